@@ -239,6 +239,31 @@ func cmdCheck(args []string) int {
 				inProp = true
 			}
 		}
+		if inProp && len(ct.CallersOnly) > 0 {
+			if f := prog.funcs[k]; f != nil {
+				var bad []string
+				for _, c := range findCallers(prog, f) {
+					ok := false
+					for _, a := range ct.CallersOnly {
+						if strings.HasSuffix(c, a) {
+							ok = true
+						}
+					}
+					if !ok {
+						bad = append(bad, c)
+					}
+				}
+				o := &Obligation{Name: funcDisplayName(f) + ":structural.callers-only", Kind: "structural", Func: funcDisplayName(f), Where: ct.Where, Expect: "unsat",
+					Text: "the only callers of " + trimName(k) + " are " + strings.Join(ct.CallersOnly, ", ")}
+				r := &oblResult{O: o, Q: "; decided by scanning the SSA of all loaded packages\n"}
+				if len(bad) == 0 {
+					r.Res = SolverResult{Status: "unsat", Solver: "kbv-callgraph-scan"}
+				} else {
+					r.Res = SolverResult{Status: "unknown", Solver: "kbv-callgraph-scan", Output: "other callers: " + strings.Join(bad, ", ")}
+				}
+				structural = append(structural, r)
+			}
+		}
 		if !inProp || !ct.Uncalled {
 			continue
 		}
@@ -629,10 +654,18 @@ func loadLemmas(path string, lib *SpecLib) ([]*oblResult, error) {
 	var pre strings.Builder
 	var out []*oblResult
 	var cur *oblResult
+	reveal := map[string]bool{}
+	for _, l := range strings.Split(string(b), "\n") {
+		if strings.HasPrefix(strings.TrimSpace(l), "; reveal ") {
+			for _, n := range strings.Fields(strings.TrimPrefix(strings.TrimSpace(l), "; reveal ")) {
+				reveal[n] = true
+			}
+		}
+	}
 	var body strings.Builder
 	flush := func() {
 		if cur != nil {
-			cur.Q = prelude + lib.Text + pre.String() + body.String() + "(check-sat)\n"
+			cur.Q = prelude + lib.TextFor(reveal) + pre.String() + body.String() + "(check-sat)\n"
 			out = append(out, cur)
 		}
 		body.Reset()
